@@ -22,6 +22,9 @@ pub enum Op {
     Cmd { slot: usize, set: bool },
     /// Let virtual time pass.
     Sleep { ms: u64 },
+    /// The whole runtime (every task of the run) continues on another, fresh OS thread from
+    /// here on - what a work-stealing runtime does to tasks all the time.
+    Migrate,
 }
 
 /// How the scripted server answers the n-th recycle (UNWATCH + PING n) on the pool.
@@ -35,6 +38,8 @@ pub enum Reply {
     StaleEcho,
     /// `+OK`, bulk "x<n>"
     WrongEcho,
+    /// `+OK`, bulk "0<n>": another value that happens to be the same number
+    PaddedEcho,
     /// `+OK`, then after 20 virtual ms the value of the most recent PING seen on this pool (on
     /// any connection): the exact echo unless another recycle started meanwhile
     ConcurrentEcho,
@@ -67,6 +72,7 @@ impl Reply {
             Reply::SlowCorrect => "SlowCorrect",
             Reply::StaleEcho => "StaleEcho",
             Reply::WrongEcho => "WrongEcho",
+            Reply::PaddedEcho => "PaddedEcho",
             Reply::ConcurrentEcho => "ConcurrentEcho",
             Reply::Pong => "Pong",
             Reply::IntEcho => "IntEcho",
@@ -112,6 +118,8 @@ pub fn generate(rng: &mut Rng, thorough: bool) -> Scenario {
     // style: 0 = mixed, 1 = reuse-heavy (get/return ping-pong), 2 = fault-heavy
     let style = rng.weighted(&[50, 25, 25]);
     let max_ops = if thorough { 26 } else { 14 };
+    // a share of the runs changes the OS thread under the runtime's feet
+    let migrate = rng.permille(120);
     let mut clients = Vec::new();
     for _ in 0..n_clients {
         let n = rng.range(3, max_ops);
@@ -157,6 +165,9 @@ pub fn generate(rng: &mut Rng, thorough: bool) -> Scenario {
                 },
             };
             ops.push(op);
+            if migrate && rng.permille(150) {
+                ops.push(Op::Migrate);
+            }
         }
         clients.push(ops);
     }
@@ -178,6 +189,7 @@ pub fn generate(rng: &mut Rng, thorough: bool) -> Scenario {
                     Reply::ConcurrentEcho,
                     Reply::StaleEcho,
                     Reply::WrongEcho,
+                    Reply::PaddedEcho,
                     Reply::Pong,
                     Reply::IntEcho,
                     Reply::ErrorReply,
@@ -195,6 +207,7 @@ pub fn generate(rng: &mut Rng, thorough: bool) -> Scenario {
                     Reply::ConcurrentEcho,
                     Reply::StaleEcho,
                     Reply::WrongEcho,
+                    Reply::PaddedEcho,
                     Reply::Pong,
                     Reply::IntEcho,
                     Reply::ErrorReply,
@@ -344,6 +357,7 @@ fn op_name(op: &Op) -> String {
         Op::Cmd { set: true, .. } => "Set".into(),
         Op::Cmd { .. } => "Cmd".into(),
         Op::Sleep { ms } => format!("Sleep({ms})"),
+        Op::Migrate => "Migrate".into(),
     }
 }
 
